@@ -1,11 +1,11 @@
 #!/bin/bash
 # usage: seed_keep.sh <id> <m>  - copies a confirmed seeded change from /tmp/seed/<id>/<m> to /verif/seeded/<id>-<m>/
-id=$1; m=$2; src=/tmp/seed/$id/$m; dst=/verif/seeded/$id-$m
+id=$1; m=$2; src=${SEED_ROOT:-/tmp/seed}/$id/$m; dst=/verif/seeded/$id-${SEED_TAG:-}$m
 [ -f $src/verify.json ] || { echo "not verified: $src"; exit 1; }
 mkdir -p $dst; rm -rf $dst/demo; cp $src/patch.diff $dst/; cp -r $src/demo $dst/demo
-python3 - "$id" "$m" <<'PY'
+python3 - "$id" "$m" "$src" "$dst" <<'PY'
 import json,sys
-id,m=sys.argv[1:3]; src="/tmp/seed/%s/%s"%(id,m); dst="/verif/seeded/%s-%s"%(id,m)
+id,m,src,dst=sys.argv[1:5]
 meta=json.load(open(src+"/meta.json")); v=json.load(open(src+"/verify.json"))
 out={"property":id,"variant":m,"summary":meta.get("summary"),"breaks":meta.get("breaks"),
  "needs_to_manifest":meta.get("needs_to_manifest"),"files_changed":meta.get("files_changed"),
